@@ -104,7 +104,7 @@ class ProgramGen(object):
                  'docstr_in_def', 'deepnest', 'unicode', 'starunpack', 'yieldgen', 'condexpr', 'withas', 'stdoutwrite',
                  'elifchain', 'commentbody', 'parenwith', 'tripledq', 'mlstr_trailing', 'raises_expected',
                  'raises_compound', 'markercomment', 'bscomment', 'padded', 'brblank', 'mlstr_wsline',
-                 'mlstr_hashclose', 'usepriv']
+                 'mlstr_hashclose', 'usepriv', 'sep_out', 'sep_literal']
 
     def __init__(self, rng, kinds=None, allow_async=True):
         self.rng = rng
@@ -313,6 +313,16 @@ class ProgramGen(object):
             # significant trailing blanks inside a string literal
             self.defined_vars.append('s%d' % i)
             return S(["s%d = '''alpha   " % i, "beta %d  " % i, "'''; quiet(%d)" % i], k, i, str_body=(1, 2), is_expr=True)
+        if k == 'sep_out':
+            # printed text that holds characters str.splitlines() takes for line ends (form feed, NEL, U+2028, FS): in
+            # the want they are ordinary characters of their line (finding F37)
+            sep = r.choice(['\\x0c', '\\x85', '\\u2028', '\\x1c', '\\x0b'])
+            return S(['print("s%d%sx" + str(quiet(%d) or ""))' % (i, sep, i)], k, i, is_expr=True)
+        if k == 'sep_literal':
+            # the same characters, raw, inside a string literal of the source
+            sep = r.choice(['\x0c', '\x85', '\u2028', '\x1c'])
+            self.defined_vars.append('s%d' % i)
+            return S(["s%d = 'a%sb'; quiet(%d + len(s%d))" % (i, sep, i, i)], k, i, is_expr=True)
         if k == 'usepriv':
             # names with a leading underscore that the doctest does not bind itself
             return S(['_q_zz(_K_ZZ + %d)' % i], k, i, is_expr=True)
